@@ -28,7 +28,7 @@ def run(chk):
     for name, n in (('bytes_cases', 500), ('mutated_tree_cases', 1000), ('registration_cases', 200), ('find_cases', 100), ('lifecycle_programs', 300), ('temp_cases', 100),
                     ('temp_files_created', 5000), ('heap_balance_checks', 2000), ('no_spawn_checked', 1000), ('spawn_monitor_hits', 20), ('long_lines', 50),
                     ('many_begins', 50), ('percent_lines', 50), ('bad_includes', 50), ('cyclic_includes', 20), ('empty_files', 50), ('magic_damaged', 50),
-                    ('preproc_lines', 50), ('exec_lines', 50), ('deep_nesting_lines', 50), ('nesting_450_plus_lines', 15), ('include_chains_over_255', 5), ('find_file_found', 100), ('find_file_null', 100), ('find_file_huge_path', 50),
+                    ('preproc_lines', 50), ('exec_lines', 50), ('deep_nesting_lines', 50), ('nesting_450_plus_lines', 15), ('include_chains_over_255', 5), ('tmpdir_missing_cases', 100), ('overlong_commands', 10), ('find_file_found', 100), ('find_file_null', 100), ('find_file_huge_path', 50),
                     ('find_file_name_at_limit', 20), ('lifecycle_cycles', 900), ('reg_contexts_160_plus', 20), ('reg_builtins_160_plus', 5), ('parse_via_path', 100),
                     ('events_checked', 10000)):
         chk.require(name, n)
